@@ -227,10 +227,15 @@ var pathSeparators = strings.NewReplacer(
 
 // Converts "key path" into "OS path" relative to the root directory.
 func (b *DirectoryBackend) osPath(path string) (string, error) {
-	fullPath := filepath.Join(b.root, pathSeparators.Replace(path))
-	// This is conservative check that "fullPath" is child of "b.root",
-	// catching any funny "../../../.." that we might accidentally get.
-	if fullPath != filepath.Clean(fullPath) {
+	relPath := pathSeparators.Replace(path)
+	fullPath := filepath.Join(b.root, relPath)
+	// Make sure that "fullPath" is a proper child of "b.root", catching any funny "../../../.."
+	// that we might get. The key path is first resolved against a virtual root, where ".."
+	// cannot climb above the starting point. If joining the result with the real root names
+	// a different place (or the root itself) then the key path escapes the root directory.
+	separator := string(os.PathSeparator)
+	confinedPath := filepath.Clean(separator + relPath)
+	if confinedPath == separator || fullPath != filepath.Join(b.root, confinedPath) {
 		b.log.WithField("path", path).Warn("invalid key path used")
 		return "", api.ErrInvalidPath
 	}
